@@ -10,39 +10,43 @@ package gzip
 // ---------------------------------------------------------------------------
 
 // gzOK: representation invariant of the gzip Writer.
-//@ pure gzBase(z *Writer) bool = z.w != nil && -2 <= z.level && z.level <= 9 && (z.compressor != nil ==> wOK(z.compressor)) && (z.wroteHeader && z.err == nil ==> z.compressor != nil) && (z.err == nil && !z.closed && z.compressor != nil && z.wroteHeader ==> !wClosed(z.compressor) && !wStuck(z.compressor)) && (!z.wroteHeader && z.compressor != nil ==> !wClosed(z.compressor) && !wStuck(z.compressor))
+//@ pure gzBase(z *Writer) bool = z.w != nil && (z.err == nil ==> !dstFailed(z.w)) && -2 <= z.level && z.level <= 9 && (z.compressor != nil ==> wOK(z.compressor)) && (z.wroteHeader && z.err == nil ==> z.compressor != nil) && (z.err == nil && !z.closed && z.compressor != nil && z.wroteHeader ==> !wClosed(z.compressor) && !wStuck(z.compressor)) && (!z.wroteHeader && z.compressor != nil ==> !wClosed(z.compressor) && !wStuck(z.compressor))
 //@ pure gzOK(z *Writer) bool = gzBase(z) && (z.closed && z.err == nil ==> z.wroteHeader && wClosed(z.compressor))
 //@ pure gzFresh(z *Writer) bool = gzOK(z) && !z.wroteHeader && !z.closed && z.err == nil && z.digest == 0 && z.size == 0 && z.OS == 255 && z.Name == "" && z.Comment == "" && z.Extra == nil && (z.compressor != nil ==> !wClosed(z.compressor) && !wStuck(z.compressor) && (z.compressor.lc != nil ==> lcFresh(z.compressor.lc)))
 
 //@ func NewWriterLevel
-//@   requires w != nil
+//@   requires w != nil && !dstFailed(w)
 //@   modifies nothing
 //@   ensures[C16 level-valid] (result1 != nil) == (level < -2 || level > 9)
 //@   ensures[C12 C16 ctor-inv] result1 == nil ==> result0 != nil && gzFresh(result0) && result0.compressor == nil && result0.level == level && result0.w == w
 //@   ensures result1 != nil ==> result0 == nil
 
 //@ func (*Writer).init
-//@   requires w != nil && -2 <= level && level <= 9 && (z.compressor != nil ==> wShape(z.compressor))
+//@   requires w != nil && !dstFailed(w) && -2 <= level && level <= 9 && (z.compressor != nil ==> wShape(z.compressor))
 //@   modifies *z, **z.compressor
 //@   ensures[C12 C16 fresh] gzFresh(z) && z.level == level && z.w == w && same(z.compressor)
 
 //@ func (*Writer).Reset
-//@   requires w != nil && -2 <= z.level && z.level <= 9 && (z.compressor != nil ==> wShape(z.compressor))
+//@   requires w != nil && !dstFailed(w) && -2 <= z.level && z.level <= 9 && (z.compressor != nil ==> wShape(z.compressor))
 //@   modifies *z, **z.compressor
 //@   ensures[C12 C16 fresh] gzFresh(z) && same(z.level) && z.w == w && same(z.compressor)
 
 //@ func (*Writer).writeBytes
-//@   requires z.w != nil
-//@   modifies z.buf, extWrites
+//@   requires z.w != nil && !dstFailed(z.w)
+//@   modifies z.buf, extWrites, lastWriteErr, **z.w
+//@   ensures[C14 dst-err] (result != nil) == dstFailed(z.w) || len(b) > 65535
+//@   ensures same(z.w)
 //@   ensures[C14] len(b) > 65535 ==> result != nil && extWrites == old(extWrites)
 
 //@ func (*Writer).writeString
-//@   requires z.w != nil
-//@   modifies z.buf, extWrites
+//@   requires z.w != nil && !dstFailed(z.w)
+//@   modifies z.buf, extWrites, lastWriteErr, **z.w
+//@   ensures[C14 dst-err] err == nil ==> !dstFailed(z.w)
+//@   ensures same(z.w)
 
 //@ func (*Writer).Write
 //@   requires gzBase(z)
-//@   modifies *z, **z.compressor, extWrites, lastCrc
+//@   modifies *z, **z.compressor, **z.w, extWrites, lastCrc, lastWriteErr
 //@   ensures[C16 inv] gzBase(z) && same(z.closed) && (old(gzOK(z)) ==> gzOK(z))
 //@   ensures[C14 C16 sticky-in] old(z.err) != nil ==> result0 == 0 && result1 == old(z.err) && extWrites == old(extWrites) && same(z.err)
 //@   ensures[C14 sticky-out] result1 != nil ==> z.err == result1
@@ -53,7 +57,7 @@ package gzip
 
 //@ func (*Writer).Flush
 //@   requires gzOK(z)
-//@   modifies *z, **z.compressor, extWrites, lastCrc
+//@   modifies *z, **z.compressor, **z.w, extWrites, lastCrc, lastWriteErr
 //@   ensures[C16 inv] gzOK(z)
 //@   ensures[C14 C16 sticky-in] old(z.err) != nil ==> result == old(z.err) && extWrites == old(extWrites) && same(z.err)
 //@   ensures[C14 sticky-out] result != nil ==> z.err == result
@@ -62,7 +66,7 @@ package gzip
 
 //@ func (*Writer).Close
 //@   requires gzOK(z)
-//@   modifies *z, **z.compressor, extWrites, lastCrc
+//@   modifies *z, **z.compressor, **z.w, extWrites, lastCrc, lastWriteErr
 //@   ensures[C16 inv] gzOK(z)
 //@   ensures[C14 C16 sticky-in] old(z.err) != nil ==> result == old(z.err) && extWrites == old(extWrites) && same(z.err)
 //@   ensures[C14 sticky-out] result != nil ==> z.err == result
